@@ -213,17 +213,33 @@ Proof.
     induction l as [|x l IHl]; intros [|i] H; cbn in *; try discriminate; auto.
 Qed.
 
+Lemma break_block_step n rho va : exec_block d (S (S (S n))) rho va (Block [] (Some LBreak)) = ret SigBreak.
+Proof. rewrite exec_block_unf. rewrite exec_stmts_unf. reflexivity. Qed.
+
+Lemma if_one_step n rho va e blk : exec_stmt d (S n) rho va (SIf [SBranch e blk] None) =
+  (sg <- (cv <- eval1 d n rho va e;; if truthy cv then exec_block d n rho va blk else ret SigNone);; ret (rho, sg)).
+Proof. rewrite exec_stmt_unf. reflexivity. Qed.
+
+Lemma eval1_lit n rho va e v s : lit_value e = Some v -> eval1 d (S (S n)) rho va e s = Ok v s.
+Proof. intros Hv. rewrite eval1_S, (eval_lit _ _ _ _ _ Hv). reflexivity. Qed.
+
+Lemma break_if_lit_step n rho va e v s : lit_value e = Some v ->
+  exec_stmt d (S (S (S (S n)))) rho va (SIf [SBranch e (Block [] (Some LBreak))] None) s =
+  Ok (rho, if truthy v then SigBreak else SigNone) s.
+Proof.
+  intros Hv. rewrite if_one_step, break_block_step. unfold bind. rewrite (eval1_lit _ _ _ _ _ _ Hv).
+  destruct (truthy v); reflexivity.
+Qed.
+
 Lemma break_if_lit_discipline e v : lit_value e = Some v ->
   stmt_discipline (SIf [SBranch e (Block [] (Some LBreak))] None).
 Proof.
   intros Hv n va rho s rho1 sg s1 a L C E.
   apply (exec_stmt_mono d n (S (S (S (S n))))) in E; [|lia].
-  rewrite exec_stmt_unf in E. cbv beta iota in E. cbn [sif_loop] in E.
-  rewrite eval1_S, (eval_lit _ _ _ _ _ Hv) in E. cbv [bind ret] in E. cbn [first] in E.
-  destruct (truthy v).
-  - rewrite exec_block_unf, exec_stmts_unf in E. cbv [ret] in E. injection E as <- <- <-.
-    split; [discriminate|]. split; [intros E'; discriminate E'|intros _; exact C].
-  - injection E as <- <- <-. split; [discriminate|]. split; [intros _; split; assumption|intros E'; discriminate E'].
+  rewrite (break_if_lit_step _ _ _ _ _ _ Hv) in E.
+  destruct (truthy v); injection E as <- <- <-.
+  - split; [discriminate|]. split; [intros E'; discriminate E'|intros _; exact C].
+  - split; [discriminate|]. split; [intros _; split; assumption|intros E'; discriminate E'].
 Qed.
 
 Section Body.
@@ -262,44 +278,75 @@ Proof.
   - reflexivity.
 Qed.
 
-Lemma body_sound n rho va s :
-  exec_block d n rho va (body_ref ss) s <> Fuel ->
-  exec_block d (10 + n) rho va (body_out ss) s = norm_res (exec_block d n rho va (body_ref ss) s).
+Definition after_decl (rho : env) (s : store) : env * store :=
+  ((F, N.of_nat (List.length (cells s))) :: rho, with_cells s (cells s ++ [VBool false])).
+
+Lemma ref_body_step n rho va s :
+  exec_block d (S (S (S (S (S n))))) rho va (body_ref ss) s =
+  exec_stmts d (S (S (S n))) (fst (after_decl rho s)) va (ss ++ [set_flag id]) (Some LContinue) (snd (after_decl rho s)).
 Proof.
-  intros Hne.
-  assert (E : exec_block d (5 + n) rho va (body_ref ss) s = exec_block d n rho va (body_ref ss) s).
-  { apply exec_block_refines_le; [lia|exact Hne]. }
-  rewrite <- E in Hne |- *. clear E. cbn [Nat.add] in *.
-  rewrite body_out_eq. unfold body_ref in *.
-  rewrite !exec_block_unf in *. rewrite exec_stmts_unf in Hne. cbv beta iota in Hne.
-  rewrite (exec_stmts_unf d (S (S (S n)))). rewrite (exec_stmts_unf d (S (S (S (S (S (S (S (S n))))))))). cbv beta iota.
-  unfold bind in Hne |- *. rewrite !decl_step in *. cbv beta iota in Hne |- *.
+  unfold body_ref. rewrite exec_block_unf, exec_stmts_unf. unfold bind. rewrite decl_step. reflexivity.
+Qed.
+
+Lemma out_body_step n rho va s :
+  exec_block d (S (S (S (S (S (S (S (S (S (S n)))))))))) rho va (body_out ss) s =
+  exec_stmts d (S (S (S (S (S (S (S (S n)))))))) (fst (after_decl rho s)) va
+    [SRepeat (Block (ss ++ [set_flag id]) (Some LBreak)) ETrue; flag_test] None (snd (after_decl rho s)).
+Proof.
+  rewrite body_out_eq. rewrite exec_block_unf, exec_stmts_unf. unfold bind. rewrite decl_step. reflexivity.
+Qed.
+
+Lemma body_sound_S n rho va s :
+  exec_block d (S (S (S (S (S n))))) rho va (body_ref ss) s <> Fuel ->
+  exec_block d (S (S (S (S (S (S (S (S (S (S n)))))))))) rho va (body_out ss) s =
+  norm_res (exec_block d (S (S (S (S (S n))))) rho va (body_ref ss) s).
+Proof.
+  rewrite out_body_step, ref_body_step. intros Hne.
   apply (rest_sound n va _ _ (N.of_nat (List.length (cells s)))).
   - apply lookup_head.
-  - unfold cell_is, with_cells. cbn [cells]. rewrite Nat2N.id. apply nth_N_app_len.
+  - unfold cell_is, after_decl, with_cells. cbn [snd cells]. rewrite Nat2N.id. apply nth_N_app_len.
   - exact Hne.
+Qed.
+
+Lemma body_sound n rho va s :
+  exec_block d n rho va (body_ref ss) s <> Fuel ->
+  exec_block d (S (S (S (S (S (S (S (S (S (S n)))))))))) rho va (body_out ss) s =
+  norm_res (exec_block d n rho va (body_ref ss) s).
+Proof.
+  intros Hne.
+  assert (E : exec_block d (S (S (S (S (S n))))) rho va (body_ref ss) s = exec_block d n rho va (body_ref ss) s).
+  { apply exec_block_refines_le; [lia|exact Hne]. }
+  rewrite <- E. apply body_sound_S. rewrite E. exact Hne.
 Qed.
 End Body.
 
 (** * The loop *)
-Theorem continue_while_sound_partial : forall ss, flag_discipline ss ->
+Definition plus10 (n : nat) : nat := S (S (S (S (S (S (S (S (S (S n))))))))).
+
+Lemma continue_while_sound_S : forall ss, flag_discipline ss ->
   forall n rho va c s,
     exec_while d n rho va c (body_ref ss) s <> Fuel ->
-    exec_while d (10 + n) rho va c (body_out ss) s = exec_while d n rho va c (body_ref ss) s.
+    exec_while d (plus10 n) rho va c (body_out ss) s = exec_while d n rho va c (body_ref ss) s.
 Proof.
   intros ss Hss. induction n as [|n IH]; intros rho va c s Hne; [exfalso; apply Hne; reflexivity|].
-  replace (10 + S n)%nat with (S (10 + n)) by lia.
-  rewrite !exec_while_unf in *. unfold bind in *.
-  assert (Ec : eval1 d (10 + n) rho va c s = eval1 d n rho va c s).
-  { apply eval1_refines_le; [lia|]. intros C. apply Hne. rewrite C. reflexivity. }
+  change (plus10 (S n)) with (S (plus10 n)).
+  rewrite (exec_while_unf d (plus10 n)). rewrite (exec_while_unf d n) in Hne |- *. unfold bind in Hne |- *.
+  assert (Ec : eval1 d (plus10 n) rho va c s = eval1 d n rho va c s).
+  { apply eval1_refines_le; [unfold plus10; lia|]. intros C. apply Hne. rewrite C. reflexivity. }
   rewrite Ec. destruct (eval1 d n rho va c s) as [cv s1|e s1| |w]; try reflexivity.
   destruct (truthy cv); [|reflexivity].
   assert (Hb : exec_block d n rho va (body_ref ss) s1 <> Fuel).
   { intros C. apply Hne. rewrite C. reflexivity. }
-  rewrite (body_sound ss Hss n rho va s1 Hb).
+  unfold plus10 at 1. rewrite (body_sound ss Hss n rho va s1 Hb).
   destruct (exec_block d n rho va (body_ref ss) s1) as [sg s2|e s2| |w]; try reflexivity.
   cbn [norm_res]. destruct sg; cbn [norm]; try reflexivity; apply IH; exact Hne.
 Qed.
+
+Theorem continue_while_sound_partial : forall ss, flag_discipline ss ->
+  forall n rho va c s,
+    exec_while d n rho va c (body_ref ss) s <> Fuel ->
+    exec_while d (10 + n) rho va c (body_out ss) s = exec_while d n rho va c (body_ref ss) s.
+Proof. exact continue_while_sound_S. Qed.
 
 End Sound.
 
